@@ -199,6 +199,14 @@ class PassHarness:
                 lo = it.instantiate(self.h.env.vars['Lo'], [off], {})
                 info['imm'] = lo
                 args.append(lo)
+            elif p == 'imm' and variant in ('imm-hi', 'imm-lo'):
+                # %hi(<expression>) / %lo(<expression>) as parse_item and the li / call / tail expansions build them: the REAL
+                # Hi / Lo object around an arbitrary inner expression (code that looks at the shape of an immediate sees it)
+                inner = builder.mk_expr('imm')
+                e = it.instantiate(self.h.env.vars['Hi' if variant == 'imm-hi' else 'Lo'], [inner], {})
+                info['imm'] = e
+                info['imm_inner'] = inner
+                args.append(e)
             elif p == 'imm':
                 if cls.name == 'Pack' and variant == 'resolved':
                     v = dom.var('immval')
@@ -757,6 +765,11 @@ def task_layout_pass(ctx, pass_name, cls_name=None):
                         pass_name in ('transform_compressible', 'resolve_immediates', 'resolve_aligns', 'resolve_register_aliases'):
                     # plus the concrete shape of the jalr half of a far call / tail
                     paths = paths + explore_step_named(ph, cls, 'jalr', variant='auipc-jump')
+                if pass_name in ('transform_compressible', 'resolve_immediates') and isinstance(nm, str):
+                    shape = {'UTypeInstruction': {'lui': 'imm-hi', 'auipc': 'imm-hi'}, 'ITypeInstruction': {'addi': 'imm-lo', 'lw': 'imm-lo', 'jalr': 'imm-lo'},
+                             'STypeInstruction': {'sw': 'imm-lo'}}.get(cls.name, {}).get(nm)
+                    if shape:
+                        paths = paths + explore_step_named(ph, cls, nm, variant=shape)
             except I.Unsupported as e:
                 ctx.undecide('asm.%s/%s' % (pass_name, tag), 'construct not modelled: %s' % e)
                 continue
@@ -772,6 +785,13 @@ def task_layout_pass(ctx, pass_name, cls_name=None):
                 PS.constructed_item_obligations(ctx, ph, nm, tag, paths)
             if n == 0 and not any(p.kind == 'raise' for p in paths):
                 ctx.errors.append('asm.%s/%s: no path through the loop body' % (pass_name, tag))
+            if paths and all(p.kind == 'raise' and p.exc_name != 'AssemblerError' for p in paths):
+                # every path of the step ends in an internal exception: nothing above was established for this item class
+                # (vacuous for every property but C15).  Either the pass now crashes on every such item - the replay shows it -
+                # or the executor mis-models the step: undecided
+                ctx.add(Obligation('asm.%s/%s/some-path-completes-the-step' % (pass_name, tag), [], z3.BoolVal(False), 'finite',
+                                   func='asm.' + pass_name, kind='invariant', cover=False,
+                                   meta={'replay': replay, 'what': '%s raises %s on every %s item' % (pass_name, paths[0].exc_name, tag)}))
 
 
 class SymName:
